@@ -373,7 +373,7 @@ PROPS["C13"] = dict(
                "(C13_lock_order); no two conflicting field accesses simultaneously enabled when they share a mutex, and the generated skeleton's accesses do, except the two "
                "documented exemptions (handshake phase vs. after observed completion; dtlcp remoteAddr) and the fields reported as findings (C13_lockset, "
                "C13_findings_are_exactly_the_failures); the handshake-phase exemption is itself an obligation: in the functions that publish completion (the store that makes "
-               "handshakeComplete() true) no statement after the store uses the connection (C13_publication_is_last, computed on the translator's publish_sites), and under that "
+               "handshakeComplete() true) no statement after the store uses the connection (C13_publication_is_last, computed on the translator's publish_sites), the flag is stored to by the handshake functions only (C13_completion_flag_written_only_by_the_handshake, flag_writers), and under that "
                "shape a thread that touches a field only after observing completion never meets the handshake thread there (C13_publish_then_observe_race_free); all transport writes of a Write happen in one critical section of the write-half mutex (C13_write_section) and under "
                "that shape the peer stream is a concatenation of whole payloads each exactly once in every interleaving (C13_writes_whole); all Handshake callers observe the "
                "latched result and the handshake function runs at most once (C13_handshake_same_result); the datagram Close touches no mutable state before its wait and no "
